@@ -1236,7 +1236,7 @@ End Main.
 Lemma existsb_ext_all {A} (f g : A -> bool) l : (forall x, f x = g x) -> existsb f l = existsb g l.
 Proof. intro H. induction l as [|x l IH]; [reflexivity|]. cbn. rewrite H, IH. reflexivity. Qed.
 
-(** with every candidate repair applied only the cookie findings (C13-F5) and Headers() as a whole
+(** with every repair applied (/repo since f446e16) only the cookie findings (C13-F5) and Headers() as a whole
     (C13-F8) remain guarded *)
 Lemma all_fixed_guards decode s caps L q :
   guard_query decode all_fixed s caps L q = g_F5_query L q || g_F8_query q.
@@ -1423,7 +1423,7 @@ Definition w8_rule : rule :=
      r_on_error := None |}.
 Definition w8_find := w_find "/c7/lit" w8_rule [].
 Lemma F8_refuted :
-  g_F8_query QHeaders = true /\ guards_fire w_decode w8_find repo_now w6_req = true /\
+  wf_lreqb w6_req = true /\ g_F8_query QHeaders = true /\ guards_fire w_decode w8_find repo_now w6_req = true /\
   s_handover (serve_decision w_decode w8_find repo_now w6_req) = Some {| ho_headers := [("X-Host", "a.example.com")]; ho_cookies := [] |} /\
   s_handover (serve_envoy w_decode w8_find repo_now w6_req) = Some {| ho_headers := [("X-Host", "")]; ho_cookies := [] |}.
 Proof. repeat split; vm_compute; reflexivity. Qed.
@@ -1471,7 +1471,7 @@ Example nonvacuous_pinned :
 Proof. split; vm_compute; reflexivity. Qed.
 
 (** C13-F9 (fix: 58408fc): Envoy conveys the body in the string field [body] (its default): grpcv3 decodes
-    nothing, the HTTP services decode the body; the candidate repair removes the difference *)
+    nothing, the HTTP services decode the body; the repair removes the difference *)
 Definition w9_req : lreq :=
   {| l_method := "POST"; l_tls := false; l_host := "a.example.com"; l_rawpath := "/c8/lit"; l_query := "";
      l_hdrs := [("Content-Type", "application/json"); ("Content-Length", "12")];
